@@ -1,4 +1,5 @@
 import CTV.Basic.Bytes
+import CTV.Gen.AddChain
 /-!
 # Model of add-chain / add-pre-chain after chain validation (C01)
 
@@ -63,6 +64,19 @@ def certChain (cs : List Bytes) : Bytes := vec 3 (cs.flatMap (vec 3))
 /-- §3.1 `PrecertChainEntry { ASN.1Cert pre_certificate; ASN.1Cert precertificate_chain<0..2^24-1> }`. -/
 def precertChainEntry (pre : Bytes) (cs : List Bytes) : Bytes := vec 3 pre ++ certChain cs
 
+/-- `tls.Marshal` of the extra data succeeds exactly when every `ASN.1Cert` is within `1..2^24-1` bytes and the whole
+`certificate_chain` vector fits its 3-byte length. -/
+def certOK (d : Bytes) : Prop := 1 ≤ d.length ∧ d.length < 2 ^ 24
+instance (d : Bytes) : Decidable (certOK d) := by unfold certOK; infer_instance
+
+def encodeChain (cs : List Bytes) : Option Bytes :=
+  if (∀ d ∈ cs, certOK d) ∧ (cs.flatMap (vec 3)).length < 2 ^ 24 then some (certChain cs) else none
+
+def encodeExtra (isPrecert : Bool) (leaf : Bytes) (cs : List Bytes) : Option Bytes :=
+  if isPrecert then
+    if certOK leaf then (encodeChain cs).map (vec 3 leaf ++ ·) else none
+  else encodeChain cs
+
 end Rfc
 
 /-! ### decoding the leaf the backend returns (`tls.Unmarshal(…, &loggedLeaf)`, no trailing bytes) -/
@@ -102,6 +116,15 @@ def decodeLeaf (b : Bytes) : Option (Nat × Entry × Bytes) :=
     | none => none
   | _ => none
 
+/-- `count` certificates, each a 3-byte length and that many bytes, nothing left over. -/
+def decodeCerts : Nat → Bytes → Option (List Bytes)
+  | 0, [] => some []
+  | 0, _ :: _ => none
+  | n + 1, b =>
+    match readOpaque 3 b with
+    | some (d, rest) => (decodeCerts n rest).map (d :: ·)
+    | none => none
+
 /-! ### the handler -/
 
 /-- What the handler reads of a certificate of the validated path. -/
@@ -115,25 +138,47 @@ structure Cert where
   isPreIssuer : Bool
 deriving DecidableEq, Repr
 
-/-- Parameters: the hash, the log key (its SubjectPublicKeyInfo and an abstract signing function over the
-digest) and `x509.BuildPrecertTBS tbs preIssuer` (`none` = it fails). -/
+/-- An abstract signature scheme: private keys, their public keys, the DER SubjectPublicKeyInfo of a public key
+(`x509.MarshalPKIXPublicKey`), the Go type of a public key (what `tls.SignatureAlgorithmFromPubKey` switches on),
+signing a digest with a private key, verifying with the public key — and the one fact assumed of it. -/
+structure KeyScheme where
+  Priv : Type
+  Pub : Type
+  pub : Priv → Pub
+  spkiOf : Pub → Bytes
+  kind : Pub → String
+  sign : Priv → Bytes → Bytes
+  verify : Pub → Bytes → Bytes → Bool
+  correct : ∀ k d, verify (pub k) d (sign k d) = true
+
+/-- Parameters: the hash, the scheme and **the one log key** `k` (the `crypto.Signer` of the instance: the SCT is
+signed with it and the log id is computed from its public half), and `x509.BuildPrecertTBS tbs preIssuer`
+(`none` = it fails; property C03). -/
 structure Cfg where
   H : Bytes → Bytes
-  logSPKI : Bytes
-  sign : Bytes → Bytes
+  K : KeyScheme
+  k : K.Priv
   deTBS : Bytes → Option Cert → Option Bytes
 
-/-- `ct.MerkleTreeLeafFromChain`: the entry for the validated path. -/
+/-- `ct.MerkleTreeLeafFromChain(chain, etype, …)`: the entry for the validated path.  Every guard, the entry-type
+selection and every chain position are the regenerated `Gen.mtl*` / `Gen.etypeOf`. -/
 def entryOf (cfg : Cfg) (path : List Cert) (isPrecert : Bool) : Option Entry :=
-  match path, isPrecert with
-  | leaf :: _, false => some (.x509 leaf.der)
-  | leaf :: issuer :: more, true =>
-    if issuer.isPreIssuer then
-      match more with
-      | final :: _ => (cfg.deTBS leaf.tbs (some issuer)).map (.precert (cfg.H final.spki))
-      | [] => none
-    else (cfg.deTBS leaf.tbs none).map (.precert (cfg.H issuer.spki))
-  | _, _ => none
+  let etype := Gen.etypeOf isPrecert
+  let n : Int := path.length
+  if Gen.mtlEmpty n then none
+  else if Gen.mtlIsX509 etype then (path[Gen.mtlX509Idx]?).map fun c => .x509 c.der
+  else if Gen.mtlNotPrecert etype then none
+  else if Gen.mtlNoIssuer n then none
+  else
+    match path[Gen.mtlPrecertIdx]?, path[Gen.mtlIssuerIdx]? with
+    | some cert, some issuer =>
+      if Gen.mtlIsPreIssuer issuer.isPreIssuer then
+        if Gen.mtlNoFinalIssuer n then none
+        else match path[Gen.mtlFinalIssuerIdx]? with
+          | some final => (cfg.deTBS cert.tbs (some issuer)).map (.precert (cfg.H final.spki))
+          | none => none
+      else (cfg.deTBS cert.tbs none).map (.precert (cfg.H issuer.spki))
+    | _, _ => none
 
 /-- `tls.Marshal(merkleLeaf)` succeeds exactly within the field ranges. -/
 def encodeLeaf (ts : Nat) (e : Entry) (ext : Bytes) : Option Bytes :=
@@ -161,6 +206,9 @@ structure Sct where
   logID : Bytes
   timestamp : Nat
   extensions : Bytes
+  /-- `DigitallySigned.Algorithm`: hash and signature algorithm codes -/
+  hashAlg : Nat
+  sigAlg : Nat
   /-- the digest handed to the signer and the signature it returned -/
   signedDigest : Bytes
   signature : Bytes
@@ -171,29 +219,34 @@ inductive Rsp where
   | bad (status : Nat) (queued : Option Stored)
 deriving DecidableEq, Repr
 
-/-- `addChainInternal` from the validated path on; `now` is `TimeSource.Now()` in milliseconds. -/
-def addChain (cfg : Cfg) (st : State) (now : Nat) (path : List Cert) (isPrecert : Bool) : Rsp × State :=
-  match path with
-  | [] => (.bad 400 none, st)
-  | leaf :: chain =>
-    match entryOf cfg path isPrecert with
-    | none => (.bad 400 none, st)
-    | some e =>
-      match encodeLeaf now e [] with
-      | none => (.bad 500 none, st)
-      | some lv =>
-        let extra := if isPrecert then precertChainEntry leaf.der (chain.map (·.der)) else certChain (chain.map (·.der))
+/-- `tls.SignatureAlgorithmFromPubKey` (regenerated type switch). -/
+def sigAlgOf (kind : String) : Nat := (Gen.sigAlgOfKey.lookup kind).getD Gen.sigAlgOfKeyDefault
+
+/-- `addChainInternal` from the validated path on; `nowNanos` is `TimeSource.Now().UnixNano()` (an int64). -/
+def addChain (cfg : Cfg) (st : State) (nowNanos : Int) (path : List Cert) (isPrecert : Bool) : Rsp × State :=
+  let now := (Gen.timeMillis nowNanos).toNat
+  match entryOf cfg path isPrecert with
+  | none => (.bad 400 none, st)
+  | some e =>
+    match path[Gen.leafCertIdx]? with
+    | none => (.bad 400 none, st)      -- unreachable after `entryOf`: the path is not empty
+    | some leaf =>
+      match encodeLeaf now e [], encodeExtra isPrecert leaf.der ((path.drop Gen.extraFromIdx).map (·.der)) with
+      | some lv, some extra =>
         let q : Stored := ⟨cfg.H leaf.der, lv, extra⟩
         let (ret, st') := queueLeaf st q
         match decodeLeaf ret.leafValue with
         | none => (.bad 500 (some q), st')
         | some (ts, e', ext) =>
           let digest := cfg.H (sctSigInput ts e' ext)
-          (.ok ⟨0, cfg.H cfg.logSPKI, ts, ext, digest, cfg.sign digest⟩ q, st')
+          let pk := cfg.K.pub cfg.k
+          (.ok ⟨0, cfg.H (cfg.K.spkiOf pk), ts, ext, Gen.tlsSHA256.toNat, sigAlgOf (cfg.K.kind pk), digest, cfg.K.sign cfg.k digest⟩ q, st')
+      | _, _ => (.bad 500 none, st)
 
 /-- A history of submissions. -/
 structure Submit where
-  now : Nat
+  /-- the clock at the request, in int64 nanoseconds -/
+  now : Int
   path : List Cert
   isPrecert : Bool
 
